@@ -32,7 +32,7 @@ LEVEL_TEXT['C05'] = ('Two seeded campaigns. (1) simd: every task field and COUNT
                      're-read, compare field by field and occurrence by occurrence with an unwritten control copy. Exploration: a clean batch is evidence, not proof.')
 NOTE = {
     'C05': 'Four recorded known findings (RDATE lists, several RRULEs, EXDATE/EXRULE, SHIFT are not faithfully serialisable): replayed from witnesses, printed as KNOWN-FINDING, their classes judged loosely (fields, crash-freeness, well-formedness) in the campaigns. Stage 2 uses the code itself as oracle and cannot see recurrence results that are wrong in the same way before and after a round trip.',
-    'C04': 'Trusted: the libev model (conformance-checked against libev 4.33 at build time), the runner\'s arithmetic occurrence computation, the executor stub. Wall-clock steps not simulated.',
+    'C04': 'Trusted: the libev model (conformance-checked against libev 4.33 at build time), the runner\'s arithmetic occurrence computation, the executor stub. Wall-clock steps: backward steps at quiet moments are simulated; what forward steps do is the recorded known finding clock-step.',
     'C11': 'Trusted: libev model, simulated passwd/peer-credential layer. Full 32-bit hash collisions between UIDs are excluded by assumption.',
     'C12': 'Trusted: libev model, scripted executor lifetimes (the real echsx --no-run path is C13\'s business).',
 }
